@@ -183,6 +183,21 @@ func perturb(v *jsonv.Value) []*jsonv.Value {
 	return out
 }
 
+func orHasConst(n *model.Node) bool {
+	v, ok := n.Rule("or")
+	if !ok {
+		return false
+	}
+	for _, alt := range v.Items {
+		for _, r := range alt.Rules {
+			if r.Name == "const" && r.Val.Lit == "true" {
+				return true
+			}
+		}
+	}
+	return false
+}
+
 func oasVerdict(kind string, err error, detail string) *ev.Verdict {
 	e := err.(*oas.Err)
 	kw := e.Keyword
@@ -301,6 +316,9 @@ func oracle(c Case) *ev.Verdict {
 			// change the type the schema infers from its example unless the rules name the type
 			if v, ok := qs[si].Rule("const"); ok && v.Lit == "true" {
 				continue
+			}
+			if orHasConst(qs[si]) {
+				continue // (the same inside an `or` rule-set: the original conversion rightly pins the original example)
 			}
 			if model.KindOfLit(cand) != qs[si].Kind && !qs[si].HasRule("or") && !qs[si].HasRule("enum") && !declares(qs[si], "any") {
 				continue
